@@ -98,12 +98,25 @@ pub struct Inject {
 
 pub const INJ_SITE: usize = 0x1d0;
 
+/// number of start-up stages a scripted module declares
+pub fn eff_stages(spec: &ModSpec) -> u8 {
+    if spec.zero_stages {
+        0
+    } else {
+        spec.stages.clamp(1, 4)
+    }
+}
+
 #[derive(Serialize, Deserialize, Clone, Debug, PartialEq, Eq, Hash, Default)]
 pub struct ModSpec {
     pub name: String,
     /// index of the parent module (must be smaller than the own index), -1 = top level
     pub parent: i32,
     pub stages: u8,
+    /// the module declares no start-up stage at all (`num_sim_start_stages() == 0`): it is never started explicitly, it
+    /// only reacts to messages
+    #[serde(default)]
+    pub zero_stages: bool,
     /// (name, cluster size)
     pub gates: Vec<(String, u8)>,
     pub catching: bool,
@@ -329,6 +342,30 @@ pub const RX_SITE_BASE: usize = 0x200;
 pub const END_SITE: usize = 0x1f0;
 pub const START_SITE: usize = 0x1e0;
 pub const PE_SITE_BASE: usize = 0x300;
+/// messages emitted by a task: site = TASK_SITE_BASE + task index (mod 16)
+pub const TASK_SITE_BASE: usize = 0x1c0;
+
+/// A task of module `m` emits a message on one of the module's gates (called from inside the task).
+pub fn task_emit(m: usize, ti: usize, si: usize, inc: u16, gate: u32) {
+    let flat = with_ctx(|c| c.flat_gates.get(m).cloned().unwrap_or_default()).unwrap_or_default();
+    if flat.is_empty() {
+        return;
+    }
+    let gi = gate as usize % flat.len();
+    let Some(g) = current().gate(&flat[gi].0, flat[gi].2) else { return };
+    if g.kind() == GateKind::Transit {
+        return;
+    }
+    let uid = uid_of(m, TASK_SITE_BASE + (ti & 0xf), si & 0x3ff, inc);
+    let msg = Message::default().kind(1).src(uid_to_src(uid));
+    rec(m, Ev::Offer { uid, gate: gi as u16, len: msg.length() as u32, busy: false, fin_ns: 0, has_chan: false, delay_ns: 0 });
+    send(msg, g);
+}
+
+/// twin mode of C13: has this module "fallen silent"?
+pub fn module_is_silent(m: usize) -> bool {
+    is_silent(m)
+}
 
 pub fn uid_parts(uid: u32) -> (usize, u16, usize, usize) {
     ((uid >> 24) as usize, ((uid >> 20) & 0xf) as u16, ((uid >> 10) & 0x3ff) as usize, (uid & 0x3ff) as usize)
@@ -437,7 +474,20 @@ impl ScriptMod {
                 let mut roundtrip_ok = true;
                 let parent_ok = match (spec.parent, cur.parent()) {
                     (-1, Err(MRE::NoEntry(_))) => true,
-                    (p, Ok(pr)) if p >= 0 => same_node(&pr, p as usize),
+                    (p, Ok(pr)) if p >= 0 => {
+                        // and back down: the parent's child of this name is this module
+                        let back = std::panic::catch_unwind(std::panic::AssertUnwindSafe(|| pr.child(&spec.name)));
+                        match back {
+                            Ok(Ok(me)) => roundtrip_ok &= me.id() == cur.id(),
+                            Ok(Err(MRE::CurrentlyInactive(_))) => inactive |= 1 << 31,
+                            Ok(Err(_)) => roundtrip_ok = false,
+                            Err(_) => {
+                                crate::clear_panic();
+                                roundtrip_ok = false;
+                            }
+                        }
+                        same_node(&pr, p as usize)
+                    }
                     (p, Err(MRE::CurrentlyInactive(_))) if p >= 0 => {
                         inactive |= 1;
                         true
@@ -550,7 +600,7 @@ impl Module for ScriptMod {
     }
 
     fn num_sim_start_stages(&self) -> usize {
-        self.spec().stages.clamp(1, 4) as usize
+        eff_stages(self.spec()) as usize
     }
 
     fn at_sim_start(&mut self, stage: usize) {
